@@ -1,6 +1,6 @@
 """Properties not claimed, with the reason (DESIGN.md section 9)."""
 
-HOOK_COMMITS = ['210a631']
+HOOK_COMMITS = ['210a631', '881b99b']
 
 NOT_APPLICABLE = {
     'C01': 'Both directions of the round trip go through serde_json, and the decode direction through decode_regular, which '
